@@ -23,4 +23,9 @@ pub trait DirectLDLSolver<T: FloatT>: DirectLDLSolverReqs<T> + HasLinearSolverIn
     fn offset_values(&mut self, index: &[usize], offset: T, signs: &[i8]);
     fn solve(&mut self, kkt: &CscMatrix<T>, x: &mut [T], b: &[T]);
     fn refactor(&mut self, kkt: &CscMatrix<T>) -> bool;
+    /// read-only access to the engine's own copy of the given KKT entries, if it keeps one
+    #[cfg(clarabel_verif)]
+    fn verif_values(&self, _index: &[usize]) -> Option<Vec<T>> {
+        None
+    }
 }
